@@ -21,7 +21,7 @@ RULE = (
     "{range, range2, fill-lower, join, balanced, annotate, one-based-ids, one-based-starts, header} x chunksize "
     "x float format, and the chroms/bins tables with column subsets; oracle = model rows (not the engines) plus "
     "the library query matrix(as_pixels=True) as a second reference. (b) dump -> cooler load -f coo|bg2 with the "
-    "same bins given as chromsizes:binsize or BED, +/- one-based, -N, duplex for filled dumps, --chunksize 1..; "
+    "same bins given as chromsizes:binsize or BED, +/- one-based, -N, duplex for filled dumps, --chunksize 1.. and --max-merge 2.. (two-pass merge of the loader); "
     "the reloaded pixel table must equal the original. (c) pairs / COO / BG2 text whose columns are permuted and "
     "interleaved with junk columns, with -c1/-p1/-c2/-p2 and --field name=N[:dtype] to match; oracle = C05's "
     "record model. (d) zoomify resolution specs (shared with C09). Non-trivial = >=2 options combined with a "
@@ -361,7 +361,9 @@ def roundtrip_cases(draw):
     return {"part": "roundtrip", "bt": bt, "symmetric": symmetric, "rows": rows, "fmt": fmt,
             "one_based": draw(st.booleans()), "filled": symmetric and draw(st.booleans()),
             "bins_as": draw(st.sampled_from(["bed", "chromsizes"])), "dump_chunksize": draw(st.sampled_from([1, 3, 10**6])),
-            "load_chunksize": draw(st.sampled_from([1, 2, 7, 10**6])), "header": False}
+            "load_chunksize": draw(st.sampled_from([1, 2, 7, 10**6])), "header": False,
+            # fan-in of the loader's merge step (None = option not given): more chunks than this means a two-pass merge
+            "max_merge": draw(st.sampled_from([None, None, 2, 3, 5]))}
 
 
 def check_roundtrip(case, ctx: Ctx):
@@ -385,6 +387,8 @@ def check_roundtrip(case, ctx: Ctx):
         bins_arg = c05._write_bins(d, bt, case["bins_as"])
         out = os.path.join(d, "re.cool")
         largs = ["load", "-f", fmt, bins_arg, txt, out, "--chunksize", str(case["load_chunksize"])]
+        if case.get("max_merge"):
+            largs += ["--max-merge", str(case["max_merge"])]
         if case["one_based"]:
             largs.append("--one-based")
         if not symmetric:
@@ -474,7 +478,8 @@ def check_layout(case, ctx: Ctx):
         xspec = f"x={lay['x'] + 1}" + (f":dtype={case['x_dtype']}" if case["x_dtype"] else "")
         if route == "pairs":
             args = ["cload", "pairs", bins_arg, txt, out, "-c1", lay["chrom1"] + 1, "-p1", lay["pos1"] + 1,
-                    "-c2", lay["chrom2"] + 1, "-p2", lay["pos2"] + 1, "--field", xspec, "--chunksize", case["chunksize"]]
+                    "-c2", lay["chrom2"] + 1, "-p2", lay["pos2"] + 1, "--field", xspec, "--chunksize", case["chunksize"],
+                    *(["--max-merge", 2] if case["chunksize"] == 1 and len(lines) % 2 else [])]
         else:
             # one record per chunk when a pixel repeats (dupcheck), see C05
             flat = [k for k, vs in want.items() for _ in vs]
